@@ -423,10 +423,13 @@ func check(c Case) vk.Verdict {
 
 var origins = []string{"", "", "null", "SCHEME://site.test", "http://site.test", "https://site.test", "https://trusted.test", "http://trusted.test", "https://a.wild.test",
 	"https://wild.test", "https://evilwild.test", "https://a.wild.test.evil.test", "https://evil.test", "HTTPS://A.WILD.TEST", "http://plain.test:8080", "http://plain.test",
-	"https://evil.test/x.wild.test", "https://evil.test/?q=.wild.test", "https://site.test.evil.test", "http://a.wild.test"}
+	"https://evil.test/x.wild.test", "https://evil.test/?q=.wild.test", "https://site.test.evil.test", "http://a.wild.test",
+	// a trusted or same host on a foreign port is a different origin
+	"https://trusted.test:8443", "https://a.wild.test:8443", "SCHEME://site.test:8443", "http://plain.test:9090", "https://trusted.test:8080"}
 
 var referers = []string{"", "", "SCHEME://site.test/page", "https://trusted.test/p", "https://trusted.test", "https://a.wild.test/x?y=1", "https://evil.test/",
-	"https://evil.test/?r=https://trusted.test", "https://evil.test/x.wild.test", "https://x/?q=.wild.test", "https://evil.test/#.wild.test", "https://a.wild.test", "https://site.test.evil.test/site.test"}
+	"https://evil.test/?r=https://trusted.test", "https://evil.test/x.wild.test", "https://x/?q=.wild.test", "https://evil.test/#.wild.test", "https://a.wild.test", "https://site.test.evil.test/site.test",
+	"https://trusted.test:8443/p", "https://a.wild.test:8443/", "SCHEME://site.test:8443/page"}
 
 func genCase(t *rapid.T) Case {
 	c := Case{Backend: rapid.SampledFrom([]string{"vk", "vk", "memory", "session"}).Draw(t, "backend"),
